@@ -131,8 +131,9 @@ def table_scenarios(full):
         # a second package (custom handler, threshold ALWAYS) registered and unregistered again
         ops += ["R 3 0", "U %d" % (reg + 1)]
         # registered id, default package, id unregistered after use, [id inside the allocated table that was never
-        # registered: handler NULL, threshold SILENT in its slot], id beyond the table, negative id
-        ids = [reg, -1, reg + 1] + ([2] if init is None else []) + [1000, -7]
+        # registered: handler NULL, threshold SILENT in its slot], first id beyond the table, far id, negative id
+        # (the table has 3 slots after these registrations: 3 is the first id beyond it)
+        ids = [reg, -1, reg + 1] + ([2] if init is None else []) + [3, 1000, -7]
         for k, p in enumerate(ids):
             ops.append("W %d %d" % (p, 70 * k))
         out.append(";".join(ops))
@@ -254,14 +255,22 @@ def compare(ctx, label, scen, impl_lines, model_lines, rank, dbg, stats):
                 nontriv = True
             if exp != ig[j]:
                 nbad_o += 1
-                if nbad_o <= 3:
+                if nbad_o <= 2:
                     miss = [e for e in exp if e not in ig[j]][:3]
                     extra = [e for e in ig[j] if e not in exp][:3]
+                    call = ""
+                    w = tok.split()
+                    d = (miss + extra)[0] if (miss + extra) else None
+                    if w[0] == "W" and d is not None and len(d) == 7 and 0 <= d[6] - int(w[2]) < 70:
+                        k = d[6] - int(w[2])
+                        call = " first differing call: sc_log (package=%s, category=%d, priority=%d);" % (w[1], CATS[k // 14], PRIOS[k % 14])
                     ctx.violation("filter:%s:%s" % (label.split()[0], tok.replace(" ", "_"))[:70],
-                                  "libsc (%s, rank %d) operation '%s' of scenario '%s...': handler invocations differ from the property: "
+                                  "libsc (%s, rank %d) operation '%s' of scenario '%s...':%s handler invocations differ from the property: "
                                   "missing %s, unexpected %s (event = kind,handler,stream,package,category,priority,msg)"
-                                  % (label, rank, tok, line[:80], miss, extra),
-                                  dict(scenario=line, op_index=j, rank=rank, variant=label, impl=impl_lines[i][:2000]))
+                                  % (label, rank, tok, line[:80], call, miss, extra),
+                                  dict(scenario=line, scenarios=([scen[i - 1]] if i > 0 else []) + [line], op_index=j, rank=rank,
+                                       variant=label, impl=impl_lines[i][:2000],
+                                       note="the library is reset by sc_finalize_noabort between scenarios: the previous scenario is part of the replay"))
             if mg is not None and (j >= len(mg) or mg[j] != ig[j]):
                 nbad_m += 1
                 if nbad_m <= 3:
@@ -297,8 +306,8 @@ def run(ctx):
     scen = table + hist
     if ctx.replay:
         rp = json.load(open(ctx.replay)).get("replay", {})
-        if "scenario" in rp:
-            scen = [rp["scenario"]] + scen[:50]
+        if "scenarios" in rp or "scenario" in rp:
+            scen = list(rp.get("scenarios") or [rp["scenario"]]) + scen[:50]
     text = "\n".join(scen) + "\n"
     casefile = os.path.join(ctx.scratch, "c19_cases.txt")
     open(casefile, "w").write(text)
@@ -313,15 +322,31 @@ def run(ctx):
             return None
         return [l for l in out[:-1]] if out and out[-1] == "" else out
 
+    def run_serial(exe, label, scn, txt, dbg):
+        """run the harness; when the process dies, localise the scenario, report it as the failing input and
+        still judge the scenarios before it"""
+        rc, impl, err = ctx.run_lines([exe], txt, timeout=1200, env=env)
+        impl = impl[:-1] if impl and impl[-1] == "" else impl
+        if rc != 0:
+            k = min(len(impl), len(scn) - 1)
+            if k < len(impl):
+                impl = impl[:k]
+            rc1, o1, e1 = ctx.run_lines([exe], scn[k] + "\n", timeout=120, env=env)
+            if rc1 != 0:
+                ctx.violation("crash:%s" % label.replace(" ", "_"),
+                              "libsc (%s) ends the process (exit %s) inside scenario '%s': %s" % (label, rc1, scn[k][:200], e1.strip()[-300:].replace("\n", " | ")),
+                              dict(scenario=scn[k], variant=label, stderr=e1[-1500:]))
+            else:
+                ctx.tie_broken("c19 harness run (%s)" % label, "exit %s in scenario %d, not reproducible in isolation: %s" % (rc, k, err[-1200:]))
+            scn = scn[:len(impl)]
+            txt = "\n".join(scn) + "\n"
+        if scn:
+            compare(ctx, label, scn, impl, model_lines(0, dbg, txt), 0, dbg, stats)
+
     # 1. serial build (pinned configuration): identifiers -1 and 0
     v = ctx.variant(mpi="off", san=True)
     exe = ctx.cc([harness], os.path.join(ctx.scratch, "c19_serial"), v)
-    rc, impl, err = ctx.run_lines([exe], text, timeout=1200, env=env)
-    if rc != 0:
-        ctx.tie_broken("c19 harness run (serial)", "exit %s: %s" % (rc, err[-1500:]))
-    else:
-        impl = impl[:-1] if impl and impl[-1] == "" else impl
-        compare(ctx, "serial release", scen, impl, model_lines(0, False), 0, False, stats)
+    run_serial(exe, "serial release", scen, text, False)
     ctx.log("serial: %d scenarios, %d log calls so far" % (stats["scenarios"], stats["calls"]))
 
     # 2. OpenMPI build on 4 ranks: identifiers 0, 1, 2, 3 (the table needs an identifier > 0)
@@ -351,12 +376,7 @@ def run(ctx):
     subtext = "\n".join(sub) + "\n"
     vd = ctx.variant(mpi="off", san=True, debug=True)
     exed = ctx.cc([harness], os.path.join(ctx.scratch, "c19_debug"), vd)
-    rc, impl, err = ctx.run_lines([exed], subtext, timeout=1200, env=env)
-    if rc != 0:
-        ctx.tie_broken("c19 harness run (debug)", "exit %s: %s" % (rc, err[-1500:]))
-    else:
-        impl = impl[:-1] if impl and impl[-1] == "" else impl
-        compare(ctx, "serial debug", sub, impl, model_lines(0, True, subtext), 0, True, stats)
+    run_serial(exed, "serial debug", sub, subtext, True)
 
     # 4. the recorded finding: sc_logf with an id that is no longer registered (mutex destroyed)
     crash = "R 0 -1;U 0;Lv 0 2 5 1\n"
